@@ -11,19 +11,32 @@
    For every membership-filter implementation; histories of any length; the
    multi-channel StoreAppendBatch is included ([op_okb]). *)
 From WK Require Import Base.Base Model.KV Gen.Consts_C07 Model.MsgStore Model.MsgStore_C07 Model.MsgStore_C09
-     Proof.KV Proof.MsgStore_base Proof.MsgStore_rel Proof.MsgStore_reads Proof.MsgStore_C07 Proof.MsgStore_C09.
+     Proof.KV Proof.MsgStore_base Proof.MsgStore_rel Proof.MsgStore_reads Proof.MsgStore_C07 Proof.MsgStore_discard Proof.MsgStore_C09.
 
 (* One mutation API call = at most one committed batch (append, apply, compat
    append, multi-channel batch, truncations, trim call, checkpoint), and the call
-   changes the store only through that batch. *)
+   changes the store only through that batch.  The one exception is the PAGED compat
+   DiscardForRestore ([not_paged] excludes it here): see c09_call_commits_batches and
+   c09_discard_* below. *)
 Theorem c09_one_batch_per_call :
   forall (F : Type) (f_empty : F) (f_may : F -> bytes * bytes -> bool) (f_add : F -> bytes * bytes -> F)
          (st : mstate F) (o : op),
+    not_paged o ->
     let st' := fst (step F f_empty f_may f_add st o) in
     (st_kv F st' = st_kv F st /\ st_log F st' = st_log F st)
     \/ exists b, st_kv F st' = kapply (st_kv F st) b /\ st_log F st' = st_log F st ++ [b].
 Proof. exact step_one_batch. Qed.
 Print Assumptions c09_one_batch_per_call.
+
+(* EVERY call, the paged one included, changes the store only through the list of
+   batches it commits, in order. *)
+Theorem c09_call_commits_batches :
+  forall (F : Type) (f_empty : F) (f_may : F -> bytes * bytes -> bool) (f_add : F -> bytes * bytes -> F)
+         (st : mstate F) (o : op),
+    let st' := fst (step F f_empty f_may f_add st o) in
+    exists bs, st_log F st' = st_log F st ++ bs /\ st_kv F st' = run_batches key_eqb (st_kv F st) bs.
+Proof. exact step_batches. Qed.
+Print Assumptions c09_call_commits_batches.
 
 (* The store is exactly the fold of the committed batches (nothing changes it behind their back). *)
 Theorem c09_store_is_fold_of_batches :
@@ -38,11 +51,59 @@ Print Assumptions c09_store_is_fold_of_batches.
 Theorem c09_prefix_in_flight :
   forall (F : Type) (f_empty : F) (f_may : F -> bytes * bytes -> bool) (f_add : F -> bytes * bytes -> F)
          (st : mstate F) (o : op) (s : kvs),
+    not_paged o ->
     kv_is_log F st ->
     crash_states key_eqb [] (st_log F (fst (step F f_empty f_may f_add st o))) (length (st_log F st)) s ->
     s = st_kv F st \/ s = st_kv F (fst (step F f_empty f_may f_add st o)).
 Proof. exact crash_in_flight. Qed.
 Print Assumptions c09_prefix_in_flight.
+
+(* ... for any call: the store after a PREFIX of the batches of that call. *)
+Theorem c09_prefix_in_flight_paged :
+  forall (F : Type) (f_empty : F) (f_may : F -> bytes * bytes -> bool) (f_add : F -> bytes * bytes -> F)
+         (st : mstate F) (o : op) (s : kvs),
+    kv_is_log F st ->
+    crash_states key_eqb [] (st_log F (fst (step F f_empty f_may f_add st o))) (length (st_log F st)) s ->
+    exists bs k, st_log F (fst (step F f_empty f_may f_add st o)) = st_log F st ++ bs /\ (k <= length bs)%nat
+                 /\ s = run_batches key_eqb (st_kv F st) (firstn k bs).
+Proof. exact crash_in_flight_many. Qed.
+Print Assumptions c09_prefix_in_flight_paged.
+
+(* The paged DiscardForRestore: its batches (one per page: the rows of the page with
+   ALL their index entries; then the partition range delete + catalog row) each keep
+   the index invariant [IdxInv] (= the monitor's [chk_entry] on every binding: no
+   index entry dangles, every stored row has its global-id / client-msg-no /
+   idempotency / sender entries unless tainted by a trusted duplicate), so it holds
+   after every prefix of them; after the call no key of the channel is left.
+   Needs nothing but the invariant itself on the store the call starts from. *)
+Theorem c09_discard_pages_keep_index_inv :
+  forall (F : Type) (t : aspec) (st : mstate F) (c : N),
+    swf (st_kv F st) -> IdxInv (st_kv F st) t ->
+    exists bs,
+      st_log F (fst (DiscardForRestore F st c)) = st_log F st ++ bs
+      /\ st_kv F (fst (DiscardForRestore F st c)) = run_batches key_eqb (st_kv F st) bs
+      /\ (forall k, IdxInv (run_batches key_eqb (st_kv F st) (firstn k bs)) t)
+      /\ (snd (DiscardForRestore F st c) = ok tt ->
+          forall k, in_partition c k = true \/ k = KyCat c -> kget k (st_kv F (fst (DiscardForRestore F st c))) = None).
+Proof. exact discard_batches. Qed.
+Print Assumptions c09_discard_pages_keep_index_inv.
+
+(* ... in particular from every store related to the plain logs: whatever a stop
+   inside the call recovers passes the monitor's per-binding index check. *)
+Theorem c09_discard_crash_inv :
+  forall (F : Type) (st : mstate F) (s : aspec) (c : N) (x : kvs),
+    Rkv (st_kv F st) s -> kv_is_log F st ->
+    crash_states key_eqb [] (st_log F (fst (DiscardForRestore F st c))) (length (st_log F st)) x ->
+    forallb (chk_entry x s) x = true.
+Proof. exact discard_crash_inv. Qed.
+Print Assumptions c09_discard_crash_inv.
+
+(* the building blocks: one stored row with its index entries; the terminal batch *)
+Theorem c09_delete_row_keeps_index_inv :
+  forall (kv : kvs) (t : aspec) (c q : N) (r : row),
+    IdxInv kv t -> kget (KyRow c q) kv = Some (VRow r) -> IdxInv (kapply kv (stageDeleteMessage c r)) t.
+Proof. exact del_row_IdxInv. Qed.
+Print Assumptions c09_delete_row_keeps_index_inv.
 
 (* Durability: after the call has returned, every crash recovers the store after it. *)
 Theorem c09_durable_after_return :
@@ -131,4 +192,41 @@ Example c09_monitor_accepts_atomic :
      Cr [(0, 1, 100); (1, 1, 0)] [1; 0; 0]
         [KRow 0 1 1 0 (hx "6e31") (hx "7531") (hashPayload [97]) [97] 5%Z 0; KGid 1 0 1;
          KIdem 0 (hx "6e31") (hx "7531") 1 1 (hashPayload [97]); KSseq 0 (hx "7531") 1 1; KCat 0 0]]) = 0.
+Proof. vm_compute. reflexivity. Qed.
+
+(* the paged DiscardForRestore: the call commits TWO batches here (one page with the
+   row, its global-id, idempotency and sender entries, then the partition / catalog batch); the model
+   offers exactly one store between them (the row and its entries gone, catalog still
+   there); afterwards the channel restarts at sequence 1 *)
+Definition c09_discard_ops : list op :=
+  [ OAppend 0 0 0 [c09_rec 1 "7531" "6e31"]; ODiscard 0; OLeo 0; OAppend 0 0 0 [c09_rec 2 "7531" "6e31"] ].
+
+Example c09_ex_discard :
+  length (st_log _ (fst (xrun true c09_discard_ops))) = 4%nat
+  /\ map (@length (@wop key value)) (st_log _ (fst (xrun true c09_discard_ops))) = [5%nat; 4%nat; 2%nat; 5%nat]
+  /\ map (fun l => map (@length (key * value)) l) (run_mids xinit c09_discard_ops) = [[]; [1%nat]; []; []]
+  /\ map fst (snd (xrun true c09_discard_ops)) = [XApp 1 1 1; XOk; XN 0; XApp 1 1 1].
+Proof. repeat split; vm_compute; reflexivity. Qed.
+
+(* the monitor flags the TORN page of the seeded change C09-b: a stop inside the
+   discard recovers the row with its channel-local index entries but WITHOUT its
+   global message-id entry ... *)
+Example c09_monitor_rejects_torn_discard_page :
+  C09_monitor (C09Case
+    (C07Case true [E (OAppend 0 0 0 [c09_rec 1 "7531" "6e31"]) (XApp 1 1 1) []; E (ODiscard 0) XOk []] [])
+    [Cr [(1, 2, 100)] [1; 0; 0]
+        [KRow 0 1 1 0 (hx "6e31") (hx "7531") (hashPayload [97]) [97] 5%Z 0;
+         KIdem 0 (hx "6e31") (hx "7531") 1 1 (hashPayload [97]); KSseq 0 (hx "7531") 1 1; KCat 0 0]]) = 1.
+Proof. vm_compute. reflexivity. Qed.
+
+(* ... and accepts the store between a whole page and the terminal batch, the store
+   before the call and the store after it *)
+Example c09_monitor_accepts_whole_discard_pages :
+  C09_monitor (C09Case
+    (C07Case true [E (OAppend 0 0 0 [c09_rec 1 "7531" "6e31"]) (XApp 1 1 1) []; E (ODiscard 0) XOk []] [])
+    [Cr [(1, 2, 100); (1, 2, 0)] [0; 0; 0] [KCat 0 0];
+     Cr [(1, 2, 0)] [1; 0; 0]
+        [KRow 0 1 1 0 (hx "6e31") (hx "7531") (hashPayload [97]) [97] 5%Z 0; KGid 1 0 1;
+         KIdem 0 (hx "6e31") (hx "7531") 1 1 (hashPayload [97]); KSseq 0 (hx "7531") 1 1; KCat 0 0];
+     Cr [(1, 2, 100); (2, 2, 0)] [0; 0; 0] []]) = 0.
 Proof. vm_compute. reflexivity. Qed.
